@@ -169,7 +169,10 @@ impl<E: FieldElement> EvaluationFrameExt<E> for &EvaluationFrame<E> {
 
     #[inline(always)]
     fn bitwise_flag(&self) -> E {
-        self.s(0) * binary_not(self.s_next(1))
+        // the selectors of the current row: the bitwise constraints which span two rows are
+        // switched off on the last row of every 8-row cycle by the periodic columns, so the
+        // last row of the chiplet needs no special treatment and must not be left unconstrained
+        self.s(0) * binary_not(self.s(1))
     }
 
     #[inline(always)]
